@@ -231,6 +231,8 @@ def apply_op(t, op, aux, rec):
             m = {i: 'same' for i in ids}
         elif kind == 'swap' and len(ids) > 1:
             m = {ids[0]: ids[1], ids[1]: ids[0]}
+        elif kind == 'onto' and len(ids) > 1:
+            m = {ids[0]: ids[-1]}            # a new name that collides with an id that is kept
         else:
             m = {}
         rec.update(op=[7, sorted(m.items()), AX[ax], strict, inplace])
@@ -462,7 +464,7 @@ def gen_op(rng):
     if r < 0.50:
         return ['copy']
     if r < 0.58:
-        return ['update_ids', ax, rng.choice(['suffix', 'short', 'partial', 'collide', 'swap', 'empty']), rng.random() < 0.5, rng.random() < 0.5]
+        return ['update_ids', ax, rng.choice(['suffix', 'short', 'partial', 'collide', 'swap', 'empty', 'onto', 'onto']), rng.random() < 0.5, rng.random() < 0.5]
     if r < 0.63:
         return ['add_metadata', ax, rng.getrandbits(4), rng.choice(['g', 'k', 'new']), rng.random() < 0.2]
     if r < 0.67:
